@@ -23,7 +23,7 @@ PROPERTY = "C15"
 RULE = ("schemas: seeded gen/schema.py descriptions built from SDL and re-built in code (enum internal values != names, "
         "string defaults with quotes/backslashes/control characters, list / input-object / null defaults, deprecated fields "
         "and enum values with and without reasons, descriptions, custom directives with arguments, mutation/subscription roots) "
-        "+ the same descriptions built from instances of SUBCLASSES of every library type class (incl. wrappers, RegexType, UUID) and compared with the plain-class twin + corpus; executed with BlockingExecutor and Executor on BlockingRuntime (all), AsyncIORuntime (private loop) and "
+        "+ input fields with python_name != name (code-built, and derived by CamelCaseSchemaTransform from snake-case fields; defaults keyed by Python names), custom-scalar defaults that look numeric, every directive location the parser accepts + the same descriptions built from instances of SUBCLASSES of every library type class (incl. wrappers, RegexType, UUID) and compared with the plain-class twin + corpus; executed with BlockingExecutor and Executor on BlockingRuntime (all), AsyncIORuntime (private loop) and "
         "ThreadPoolRuntime(2) (subset); includeDeprecated true/false/omitted; introspection enabled/disabled; __type(name:) of names in / not in the schema; "
         "HISTORIES introspect -> in-place change of the live schema (hide implementer, drop union member, replace types, rename enum values, "
         "set / delete defaults) -> introspect again on Executor and BlockingExecutor, + ctx.later repeats on the schema objects kept alive. "
@@ -33,6 +33,7 @@ ASSUMPTIONS = [
     "enum internal values are hashable and pairwise distinct (EnumType._reverse_values is a dict: the last of two equal values wins)",
     "defaults are compared after the completion value_from_ast performs (absent input-object fields take the field's own default, a single value at a list type is the one-element list): that completion is coercion's business (ledger H2), not introspection's",
     "generated deprecation reasons are non-empty; the empty reason (ledger I2: Field.deprecated = bool(reason) vs EnumValue.deprecated = reason is not None) is checked by a dedicated oracle (oracle_empty_reason) and corpus/C15/03-empty-reason.json",
+    "custom-scalar string defaults that ARE the repr of a finite float or a plain integer text (\"42.42\", \"7\", \"-0\") are printed as number literals on purpose (pinned by tests/test_utilities/test_ast_node_from_value.py); they are checked by the direct oracle only (oracle_numeric_strings), the model stream uses numeric-LOOKING strings that are neither (Python float()/repr are not modelled)",
     "default values are JSON-like Python values (None/bool/int/float/str/list/dict); floats travel as repr strings",
 ]
 TRUSTED = [
@@ -537,7 +538,7 @@ def cases(ctx):
             break
         seed = ctx.rng.randrange(1 << 30)
         size = 1 + i % 3
-        for mode in ("sdl", "code", "code-sub"):
+        for mode in ("sdl", "code", "code-sub", "code-py"):
             c = {"mode": mode, "seed": seed, "size": size}
             yield ("gen:%s" % mode,) + load_case(c)
 
@@ -564,6 +565,13 @@ def load_case(c):
     d["directives"] = [x for x in full["directives"] if x["name"] not in ("include", "skip", "deprecated")]
     L.sprinkle_string_defaults(rng, d)
     em = L.make_enum_map(rng, d)
+    d = L.add_numeric_scalar_defaults(d, rng)
+    if c["mode"] == "code-py":
+        # input fields whose python_name differs from their GraphQL name; declared defaults keyed by Python names
+        if c["seed"] % 2 == 0:
+            return L.build_code(d, em, pynames=True), c
+        from py_gql.schema.transforms import CamelCaseSchemaTransform, transform_schema
+        return transform_schema(L.build_code(L.snake_input_fields(d), em), CamelCaseSchemaTransform()), c
     if c["mode"] == "code-sub":
         # every type object is an instance of a SUBCLASS of the library class (+ RegexType / UUID of the library)
         d = L.add_library_scalars(d)
@@ -934,9 +942,94 @@ def oracle_empty_reason(ctx):
                          {"check": "empty-reason", "how": how, "member": what})
 
 
+def oracle_directive_locations(ctx):
+    """Ledger I5. Every directive location the PARSER accepts in a directive definition (and `Directive(...)`
+    accepts in code) must be introspectable: `__schema { directives { locations } }` reports it, nothing raises."""
+    from py_gql import build_schema
+    from py_gql.lang.parser import DIRECTIVE_LOCATIONS
+    from py_gql.schema import Directive, Field, Int, ObjectType, Schema
+    ok_locs = []
+    for loc in DIRECTIVE_LOCATIONS:
+        for how in ("sdl", "code"):
+            ctx.count()
+            try:
+                schema = (build_schema("type Query { a: Int } directive @v on %s" % loc) if how == "sdl"
+                          else Schema(ObjectType("Query", [Field("a", Int)]), directives=[Directive("v", [loc])]))
+            except Exception as e:  # noqa
+                ctx.stat("directive-location:%s:not-buildable-%s" % (how, type(e).__name__))
+                continue
+            bad = None
+            for cfg in ("blocking", "generic"):
+                st, r = L.execute(schema, "{ __schema { directives { name locations } } }", cfg)
+                if st != "ok":
+                    bad = "raises %s" % r
+                elif r.get("errors") or [x["locations"] for x in (r.get("data") or {}).get("__schema", {}).get("directives", []) if x["name"] == "v"] != [[loc]]:
+                    bad = "answers %s" % str(r)[:200]
+            ctx.nontrivial(("directive-location", loc, how))
+            if bad:
+                ctx.fail("directive-location-not-introspectable:" + loc,
+                         "a directive defined `on %s` (accepted by the parser / Directive()) makes introspection of the directives fail: %s" % (loc, bad),
+                         {"check": "directive-locations", "location": loc, "how": how})
+            elif how == "sdl":
+                ok_locs.append(loc)
+    # all introspectable locations at once, through the standard query and the full oracle
+    if ok_locs:
+        case = {"mode": "sdl-text", "sdl": "type Query { a: Int }\ndirective @everywhere(x: Int = 1) on %s" % " | ".join(ok_locs)}
+        schema, case = load_case(case)
+        oracle_schema(ctx, "all-locations", schema, case, ["blocking", "generic"], None)
+
+
+NUMERIC_STRINGS_DIRECT = L.NUMERIC_LOOKING + ["42.42", "-0", "1e+20", "2147483648", "7", "0", "1.5", "-2.25e-07", "1e400"]
+
+
+def oracle_numeric_strings(ctx):
+    """Ledger I4 (= C12's H3). STRING defaults of a custom scalar that look numeric — at top level, in a list, nested,
+    inside an input object — must be reported as text denoting the declared string (whether as a string or, where
+    the library prints numbers on purpose, as a number literal whose text IS the string)."""
+    from py_gql import build_schema
+    for x in NUMERIC_STRINGS_DIRECT:
+        lit = json.dumps(x)
+        sdl = ("scalar Code\ninput I { c: Code = %s, l: [Code!] = [%s] }\n"
+               "type Query { f(top: Code = %s, list: [Code] = [%s, \"plain\"], nested: [[Code]] = [[%s]], obj: I = {c: %s, l: [%s]}): Int }"
+               % (lit, lit, lit, lit, lit, lit, lit))
+        try:
+            schema = build_schema(sdl)
+        except Exception as e:  # noqa
+            ctx.stat("numeric-string:not-buildable-" + type(e).__name__)
+            continue
+        st, r = L.execute(schema, std_query(), "blocking")
+        ctx.count()
+        if st != "ok" or r.get("errors"):
+            ctx.fail("introspection-raises:%s" % (r if st != "ok" else "errors"), "the standard introspection query fails",
+                     {"check": "numeric-strings", "value": x})
+            continue
+        dec = L.decode_introspection(r["data"])
+        texts = {}
+        for t in dec["types"]:
+            for f in t["fields"]:
+                for a in f["args"]:
+                    texts["%s.%s(%s)" % (t["name"], f["name"], a["name"])] = a["default_text"]
+            for a in t["input_fields"]:
+                texts["%s.%s" % (t["name"], a["name"])] = a["default_text"]
+        for where, iv in L.iter_defaults(schema):
+            if where.startswith("__") or where.startswith("@") or not iv.has_default_value:
+                continue
+            ctx.count()
+            ctx.nontrivial(("numeric-string", x, where))
+            ok, reason = L.default_roundtrips(texts.get(where), iv.type, iv.default_value)
+            if not ok:
+                pos = "top" if where.endswith("(top)") or where == "I.c" else ("object" if where.endswith("(obj)") else "list")
+                ctx.fail("default-not-graphql:custom-scalar-numeric-string:%s:%s" % (pos, reason),
+                         "custom scalar default %r (declared %r) is reported as %r, which does not denote it (%s)"
+                         % (x, iv.default_value, texts.get(where), reason),
+                         {"check": "numeric-strings", "value": x, "where": where, "reported": texts.get(where)})
+
+
 def run(ctx):
     try:
         oracle_empty_reason(ctx)
+        oracle_directive_locations(ctx)
+        oracle_numeric_strings(ctx)
         _run(ctx)
     finally:
         L.shutdown()
@@ -979,6 +1072,10 @@ def replay(ctx, data):
         import sys
         sub = Ctx2(ctx)
         C15_history.one_history(sub, sys.modules[__name__], inp["case"], inp["kind"], inp["hseed"])
+        return not any(f["signature"] == data.get("signature") for f in sub.found)
+    if inp.get("check") in ("directive-locations", "numeric-strings"):
+        sub = Ctx2(ctx)
+        (oracle_directive_locations if inp["check"] == "directive-locations" else oracle_numeric_strings)(sub)
         return not any(f["signature"] == data.get("signature") for f in sub.found)
     if inp.get("check") == "empty-reason":
         sub = Ctx2(ctx)
